@@ -40,9 +40,6 @@ where
             st.eval();
             let mut m = mk();
             let r = run_plan(plan, &profile, &mut m, st, shard);
-            if st.want_sample() {
-                st.sample(|| plan_summary(plan));
-            }
             r
         },
     )
